@@ -513,6 +513,11 @@ def method_of(eng, v, name):
         return v.dtype if v.dtype is not None else dtype_of_kind(v.kind)
     if name == "size":
         return len(v.items) if isinstance(v, NArr) else eng.snum(v.nz(), "int")
+    from . import layout
+
+    m = layout.method_of(eng, v, name)  # copy / flatten / ravel / reshape(-1) / view / flags of a 1-D array with a contiguity flag
+    if m is not None:
+        return m
     if isinstance(v, NArr):
         from . import narr
 
@@ -1090,6 +1095,11 @@ NP_MODELS = {
 
 
 def lookup_model(fn):
+    from . import layout
+
+    m = layout.lookup_model(fn)  # functions whose result (the argument itself / a view / a copy) depends on the storage layout
+    if m is not None:
+        return m
     try:
         m = NP_MODELS.get(fn)
     except TypeError:
